@@ -21,7 +21,9 @@ PROPS = {
         assumptions=[
             "the dense long-double reference (Gauss-Jordan / GEPP with partial pivoting) is accurate to 8 n 2^-64 |A^-1||A||x| componentwise",
             "rounding bounds are first-order componentwise propagations with a safety factor 4 (stated next to each check); calibrated worst observed error/bound ratio 0.05 (dense inner solvers), 0.26 (GMRES inner solvers)",
-            "residual gap of recurrence-updated Krylov residuals bounded by 16 u (iters+2) n^1.5 (||A|| (||x||+||x0||+||A^-1 f||) + ||f||)/||f||",
+            "deflated solve: solvers that recompute the residual before returning (gmres, fgmres, lgmres) must report the true residual of the original system within "
+            "gap = 16 u (iters+2) n^1.5 (||A|| (||x||+||x0||+||A^-1 f||) + ||f||)/||f||; for recurrence-updated residuals (cg, bicgstab, bicgstabl, idrs) the claim checked is "
+            "true residual <= max(tol, reported)(1+1e-3) + gap (the drift of the recurrence itself is C01's subject; IDR(s) was seen to report 7e-11 at a true 1.2e-9)",
         ],
         min_nontrivial=300,
     ),
